@@ -618,7 +618,7 @@ def shard_e2e(ctx, k, payload):
         p['amount_bias'] = data.draw(st.sampled_from(['typical', 'typical', 'large', 'small']))
         if data.draw(st.integers(0, 5)) == 0:
             p.update(status='MarriedFilingJointly', ira='8606', n_r=2, both_spouses_1099r=True)
-        elif data.draw(st.integers(0, 3)) == 0:
+        elif data.draw(st.integers(0, 2)) == 0:
             # Schedule B with more dividend payers than interest payers (and the other way round)
             a_, b_ = data.draw(st.sampled_from([(0, 3), (1, 3), (1, 2), (0, 2), (3, 1), (3, 0)]))
             p.update(n_int=a_, n_div=b_, big_interest=True, amount_bias='large')
